@@ -281,7 +281,11 @@ def check_get_ruleset(spec: dict) -> dict:
     import importlib
     import types
     from antismash.detection import hmm_detection
-    importlib.reload(hmm_detection)   # every case starts from fresh module state (ruleset caches)
+    # every case starts from fresh module state (ruleset caches, and whatever cache the rule machinery below it keeps),
+    # so that a case is a pure function of its request history
+    from antismash.common.hmm_rule_parser import cluster_prediction
+    importlib.reload(cluster_prediction)
+    importlib.reload(hmm_detection)
     seen_conditions: dict = {}
     for index, request in enumerate(spec["requests"]):
         options = types.SimpleNamespace(
